@@ -151,7 +151,7 @@ def run_job(job):
                 seg["ops"].append({"op": "query", "name": st["name"], "how": st.get("how", "plain")})
                 seg["meta"].append({"step": st})
                 if st.get("truth"):
-                    seg["ops"].append({"op": "truth", "name": st["name"], "how": "plain",
+                    seg["ops"].append({"op": "truth", "name": st["name"], "how": "plain", "hashseed": str(1 + len(seg["ops"]) % 7),
                                        "text": vprogs.module_source(prog), "init_text": vprogs.init_source(prog)})
                     seg["meta"].append({"step": st})
             elif do == "probe":
